@@ -8,6 +8,7 @@ import (
 	"context"
 	"errors"
 	"io"
+	"sync"
 
 	"google.golang.org/grpc"
 	"google.golang.org/grpc/codes"
@@ -15,6 +16,8 @@ import (
 	"google.golang.org/grpc/status"
 
 	"github.com/cosi-project/runtime/api/v1alpha1"
+	"github.com/cosi-project/runtime/pkg/controller/conformance"
+	"github.com/cosi-project/runtime/pkg/resource/protobuf"
 	"verif.local/vrt"
 )
 
@@ -76,8 +79,23 @@ type Client struct {
 	StreamBuf int
 }
 
+var registerOnce sync.Once
+
+// RegisterConformanceResources registers the conformance Int/Str resources for typed unmarshalling.
+func RegisterConformanceResources() {
+	registerOnce.Do(func() {
+		if err := protobuf.RegisterResource(conformance.IntResourceType, &conformance.IntResource{}); err != nil {
+			panic(err)
+		}
+		if err := protobuf.RegisterResource(conformance.StrResourceType, &conformance.StrResource{}); err != nil {
+			panic(err)
+		}
+	})
+}
+
 // New returns a loopback client.
 func New(srv v1alpha1.StateServer) *Client {
+	RegisterConformanceResources()
 	return &Client{Srv: srv, Calls: map[string]int{}, StreamBuf: 4}
 }
 
